@@ -5,8 +5,8 @@
   The interpreter is an UNVALIDATED transcription of the Arm ARM (no arm64 CPU or emulator in the sandbox): these
   tests compare listing + transcription with the independent specification, not with a CPU.
   General theorems exist for `cryptoBlockAsm` (`kernelX1_eq_spec`), `expandKeyAsm` (`expandKey_eq_spec`),
-  `cryptoBlockAsmX2 / X4 / X8` (`kernelX2_eq_spec`, `kernelX4_eq_spec`, `kernelX8_eq_spec`); for
-  `cryptoBlockAsmX16Internal` the test below is all there is.
+  `cryptoBlockAsmX2 / X4 / X8` (`kernelX2_eq_spec`, `kernelX4_eq_spec`, `kernelX8_eq_spec`) and
+  `cryptoBlockAsmX16Internal` with tmp = dst (`kernelX16_eq_spec`, SMGo/Proofs/ISAValArm64X16Final.lean).
 -/
 import SMGo.Model.ISAValArm64Inst
 import SMGo.Proofs.ISAValTests
